@@ -576,10 +576,75 @@ def r19_last_unwrap(text, base_line=0):
     for m in pat.finditer(text):
         log.append("R19 line %d: `%s` -> `(&%s[%s.len() - 1])`" % (base_line + text.count("\n", 0, m.start()), m.group(0), m.group(1), m.group(1)))
     text = pat.sub(lambda m: "(&%s[%s.len() - 1])" % (m.group(1), m.group(1)), text)
+    pat3 = re.compile(r"(\(&\w+\[\w+\.len\(\) - 1\]\))\.last\(\)\.unwrap\(\)")
+    for m in pat3.finditer(text):
+        log.append("R19 line %d: `%s` -> `({ let __lw = %s; &__lw[__lw.len() - 1] })`" % (base_line + text.count("\n", 0, m.start()), m.group(0), m.group(1)))
+    text = pat3.sub(lambda m: "({ let __lw = %s; &__lw[__lw.len() - 1] })" % m.group(1), text)
     pat2 = re.compile(r"((?:self\.)?[\w\.]+\.get\(&\w+\)\.unwrap\(\))\.last\(\)\.unwrap\(\)")
     for m in pat2.finditer(text):
         log.append("R19 line %d: `%s` -> `({ let __lv = %s; &__lv[__lv.len() - 1] })`" % (base_line + text.count("\n", 0, m.start()), m.group(0), m.group(1)))
     return pat2.sub(lambda m: "({ let __lv = %s; &__lv[__lv.len() - 1] })" % m.group(1), text), log
+
+
+def r20_range_enumerate(text, base_line=0):
+    """R20: `for (I, J) in (A..B).enumerate() {` -> `for I in 0..(B) - (A) { let J = (A) + I;`"""
+    log = []
+    pat = re.compile(r"for\s*\(\s*(\w+)\s*,\s*(\w+)\s*\)\s*in\s*\(\s*([^().]+?)\s*\.\.\s*([^()]+?)\s*\)\.enumerate\(\)\s*\{")
+    while True:
+        m = pat.search(text)
+        if not m:
+            return text, log
+        i, j, a, b = m.groups()
+        new = "for %s in 0..(%s) - (%s) { let %s = (%s) + %s;" % (i, b, a, j, a, i)
+        log.append("R20 line %d: `%s` -> `%s`" % (base_line + text.count("\n", 0, m.start()), " ".join(m.group(0).split()), new))
+        text = text[:m.start()] + new + text[m.end():]
+
+
+def r22_map_collect(text, base_line=0):
+    """R22: `let V: Vec<T> = E.iter().map(|x| F).collect();` -> `let mut V: Vec<T> = Vec::new(); for __k in 0..E.len() { let x = &E[__k]; V.push(F); }`
+    (what `iter().map().collect()` into a Vec does: push F(x) for each element in order)"""
+    log = []
+    pat = re.compile(r"let\s+(\w+)\s*:\s*(Vec<[^=;]+>)\s*=\s*(\w+)\.iter\(\)\.map\(\|(\w+)\|\s*([^;|]+?)\)\.collect\(\);")
+    while True:
+        m = pat.search(text)
+        if not m:
+            return text, log
+        v, ty, e, x, f = m.groups()
+        new = "let mut %s: %s = Vec::new(); for __k in 0..%s.len() { let %s = &%s[__k]; %s.push(%s); }" % (v, ty.strip(), e, x, e, v, f.strip())
+        new += "\n" * m.group(0).count("\n")
+        log.append("R22 line %d: `%s` -> `%s`" % (base_line + text.count("\n", 0, m.start()), " ".join(m.group(0).split()), new.strip()))
+        text = text[:m.start()] + new + text[m.end():]
+
+
+def r23_slice_iter(text, base_line=0):
+    """R23: `for X in &E[A..B] {` -> `for __i in A..B { let X = &E[__i];`"""
+    log = []
+    pat = re.compile(r"for\s+(\w+)\s+in\s+&([\w\.]+)\[([^\]\.]+)\.\.([^\]]+)\]\s*\{")
+    while True:
+        m = pat.search(text)
+        if not m:
+            return text, log
+        x, e, a, b = m.groups()
+        new = "for __i in %s..%s { let %s = &%s[__i];" % (a.strip(), b.strip(), x, e)
+        log.append("R23 line %d: `%s` -> `%s`" % (base_line + text.count("\n", 0, m.start()), m.group(0), new))
+        text = text[:m.start()] + new + text[m.end():]
+
+
+def r24_name_wildcard_loop(text, base_line=0):
+    """R24: `for _ in A..B {` -> `for __it in A..B {` (names the counter so that an invariant can mention it)"""
+    log = []
+    pat = re.compile(r"for\s+_\s+in\s+")
+    for m in pat.finditer(text):
+        log.append("R24 line %d: `for _ in` -> `for __it in`" % (base_line + text.count("\n", 0, m.start())))
+    return pat.sub("for __it in ", text), log
+
+
+def r21_to_owned(text, base_line=0):
+    """R21: `.to_owned()` -> `.clone()` (identical for a `Clone` type; vstd specifies `Clone`)"""
+    log = []
+    for m in re.finditer(r"\.to_owned\(\)", text):
+        log.append("R21 line %d: `.to_owned()` -> `.clone()`" % (base_line + text.count("\n", 0, m.start())))
+    return text.replace(".to_owned()", ".clone()"), log
 
 
 def r11_deref_ref_operand(text, base_line=0):
@@ -591,9 +656,9 @@ REWRITES = {
     "R1": r1_compound_assign, "R2": r2_unary_minus, "R3": r3_scale_call, "R6": r6_for_with_continue,
     "R7": r7_isqrt, "R8": r8_step_by, "R9": r9_consts, "R10": r10_tail_continue,
     "R12": r12_enumerate, "R15": r15_iter, "R16": r16_map_index, "R17": r17_for_in_ref_vec, "R18": r18_assert_eq_shape,
-    "R19": r19_last_unwrap, "R13": r13_panic_allowed, "R14": r14_panic_forbidden,
+    "R19": r19_last_unwrap, "R20": r20_range_enumerate, "R21": r21_to_owned, "R22": r22_map_collect, "R23": r23_slice_iter, "R24": r24_name_wildcard_loop, "R13": r13_panic_allowed, "R14": r14_panic_forbidden,
 }
-ORDER = ["R18", "R13", "R14", "R16", "R12", "R15", "R17", "R19", "R10", "R8", "R6", "R9", "R7", "R3", "R1", "R2"]
+ORDER = ["R18", "R13", "R14", "R16", "R20", "R22", "R23", "R24", "R12", "R15", "R17", "R19", "R21", "R10", "R8", "R6", "R9", "R7", "R3", "R1", "R2"]
 
 
 def apply_rewrites(text, names, base_line):
@@ -839,7 +904,7 @@ def generate(template_path, repo, canary=False, contracts_dir=None, exclude=None
             continue
         if s.startswith("//@body "):
             spec = parse_kv(s[len("//@body "):])
-            loop_inv, inserts = {}, []
+            loop_inv, inserts, skips = {}, [], []
             j = i + 1
             while tl[j].strip() != "//@endbody":
                 d = tl[j].strip()
@@ -852,6 +917,11 @@ def generate(template_path, repo, canary=False, contracts_dir=None, exclude=None
                         k += 1
                     loop_inv[n] = subst("\n".join(buf))
                     j = k + 1
+                    continue
+                m = re.match(r"//@skip\s+/(.+?)/\.\./(.+?)/\s*(?:#(\d+))?$", d)
+                if m:
+                    skips.append((m.group(1), m.group(2), int(m.group(3) or 1)))
+                    j += 1
                     continue
                 m = re.match(r"//@(before|after)\s+/(.+)/\s*(?:#(\d+))?$", d)
                 if m:
@@ -892,6 +962,23 @@ def generate(template_path, repo, canary=False, contracts_dir=None, exclude=None
                 if mine is None or plist(mine) != plist(real_sig):
                     raise LostAnchor("unit %s: parameter list of %s::%s changed: `%s` vs wrapper `%s`" % (
                         unit, spec.get("impl", ""), spec["fn"], plist(real_sig), plist(mine) if mine else None))
+            # statements dropped from the unit (`//@skip /re1/../re2/ [#k]`), after a syntactic non-interference scan:
+            # no break/continue/return inside, no write to a variable listed in `protect=`
+            if skips:
+                spans = sorted(region_span(text, r1, r2, occ) + (r1,) for (r1, r2, occ) in skips)
+                protect = [v for v in spec.get("protect", "").split(",") if v]
+                for (s0, e0, r1) in reversed(spans):
+                    dropped = text[s0:e0]
+                    code = re.sub(r"//[^\n]*", "", dropped)
+                    code = re.sub(r'"(?:[^"\\\\]|\\\\.)*"', '""', code)
+                    if re.search(r"\b(break|continue|return)\b", code):
+                        raise LostAnchor("unit %s: skipped statement /%s/ contains control flow" % (unit, r1))
+                    for v in protect:
+                        if re.search(r"\b%s\b(\s*\[[^\]]*\])*\s*(\.\s*(push|add_inplace|sub_inplace|mul_inplace|mean_inplace|remove)\s*\(|=[^=]|\+=|-=)" % re.escape(v), code):
+                            raise LostAnchor("unit %s: skipped statement /%s/ writes protected variable `%s`" % (unit, r1, v))
+                    G.units[unit]["drops"].append("skip: lines %d-%d (starts `%s`) are NOT part of this unit; scanned: no break/continue/return, no write to {%s}"
+                                                  % (first_line + text.count("\n", 0, s0), first_line + text.count("\n", 0, e0), " ".join(dropped.split())[:50], ",".join(protect)))
+                    text = text[:s0] + "\n" * dropped.count("\n") + text[e0:]
             rw = [r for r in spec.get("rewrites", "").split(",") if r]
             text, log = apply_rewrites(text, rw, first_line)
             G.units[unit]["desc"].append(desc)
